@@ -179,6 +179,19 @@ def replay_function(reg, c, oname, raw, search=True):
     from . import native
     rec = dict(verdict='no-failing-input-found', native_failures=[], info={})
     cc = reg.class_contract_of(c)
+    if oname in c.native_replay:
+        try:
+            fails, info = c.native_replay[oname]()
+        except Exception:
+            fails, info = None, {'error': traceback.format_exc()[-600:]}
+        rec['info'] = info
+        rec['scenario'] = oname
+        if fails:
+            rec.update(verdict='reproduced', native_failures=fails,
+                       inputs=dict(scenario=info.get('scenario')))
+        else:
+            rec['why_not'] = 'the scripted scenario satisfies the contract on the real code'
+        return rec
     if raw is not None and cc is not None and cc.trace is not None and not c.is_init \
             and 'self' in raw:
         try:
@@ -664,6 +677,14 @@ def replay_file(path):
     from . import native
     rp = rec.get('replay', {})
     pk = rp.get('args_pickle_b64')
+    if rp.get('scenario') and rec['unit'] in reg.fns and \
+            rp['scenario'] in reg.fns[rec['unit']].native_replay:
+        fails, info = reg.fns[rec['unit']].native_replay[rp['scenario']]()
+        if fails:
+            print('REPRODUCED', json.dumps(fails), json.dumps(info, default=str)[:500])
+            return 0
+        print('NOT-REPRODUCED', json.dumps(info, default=str)[:500])
+        return 1
     if rp.get('trace_pickle_b64'):
         start, steps = pickle.loads(base64.b64decode(rp['trace_pickle_b64']))
         k, fails, info = run_trace(reg, start, steps)
